@@ -16,6 +16,14 @@ fn main() {
         usage();
     }
     let id = args[1].clone();
+    if id == "--artefacts" {
+        for (n, b) in &props::c09::artefacts().blocks {
+            if let Ok(blk) = pallas_traverse::MultiEraBlock::decode(b) {
+                println!("{n} era={:?} slot={} number={} txs={}", blk.era(), blk.slot(), blk.number(), blk.tx_count());
+            }
+        }
+        return;
+    }
     if id == "--list" {
         for p in props::ALL {
             println!("{}", p);
